@@ -164,7 +164,13 @@ def stepTokens (w : World) : List String → World × String
        | .noRoots => (w, "noroots")
        | .corrupt => (w, "corrupt"))
     | _, _ => (w, "bad-op")
+  | ["cfg", _] => (w, "ok")
   | ["close", s] => match s.toNat? with
+    | some s => (match assocGet s w.stores with
+      | some _ => ({ w with stores := assocDel s w.stores }, "ok")
+      | none => (w, "nostore"))
+    | none => (w, "bad-op")
+  | ["drop", s] => match s.toNat? with
     | some s => ({ w with stores := assocDel s w.stores }, "ok")
     | none => (w, "bad-op")
   | ["setcoll", s, n] => match s.toNat?, parseBytes n with
@@ -228,7 +234,7 @@ def stepTokens (w : World) : List String → World × String
   | ["len", s, n] => match s.toNat?, parseBytes n with
     | some s, some (some n) => withColl w s n fun _ c => (w, toString c.root.toList.length)
     | _, _ => (w, "bad-op")
-  | ["evict", s, n] => match s.toNat?, parseBytes n with
+  | ["evict", s, n, _] => match s.toNat?, parseBytes n with
     | some s, some (some n) => withColl w s n fun _ _ => (w, "ok")
     | _, _ => (w, "bad-op")
   | ["flush", s] => match s.toNat? with
